@@ -204,6 +204,27 @@ CLAIMED = {
          "expr.Compile / expr.Run and validator.Struct / Var are third-party: their verdicts are named by spec functions (A-LIB), the "
          "constraint and expression semantics themselves are not verified. That the delegate's processor list IS the sorted list "
          "(InvokeBeanFactoryPostProcessors) is used through the phase contract, not yet proved against the body. " + TRUST),
+ "C11": ("proof",
+         "Field scanning and tag scanning are verified on the real reflective code against an axiomatised reflect (A-REFLECT): "
+         "ForEachFieldV2 calls the acceptor for field 0..n-1 of the (dereferenced) struct in order with the field's descriptor and value, "
+         "terminates (variant NumField - i) and does nothing for non-structs; the scanFields closure is checked at its creation to refine "
+         "the acceptor contract (functype callback refinement) and decides exactly as the property says: an anonymous, untagged, by-value "
+         "struct is entered by recursion with a holder chained to the enclosing one, any other field is recorded exactly when it is "
+         "settable, with its own descriptor / value / holder ([settable-leaf-recorded], [unsettable-leaf-skipped]) - the record does not "
+         "depend on the nesting depth; FieldsInv (every recorded field is settable, not an embedded struct, typed as its descriptor) is an "
+         "invariant of the whole recursion. The tag scanner creates one Property per field carrying its tag, in field order, none for other "
+         "fields unless a handler claims them ([property-per-tagged-field], [only-claimed-fields], [in-field-order]), applies the default "
+         "required argument, stores them in the Meta's groups (SetProperties: all stored, earlier ones kept) and writes no component memory. "
+         "Frame: Inject, SetValue, the logger processor and the value / prefix processors write only the location behind the Value of a "
+         "property they process; the census obligation [census:reflect-writers] makes every call site of reflect.Value.Set* / "
+         "reflect.Copy / Append in non-test code sit in a function under contract or in the explicit off-path list.",
+         "DESIGN.md section 5 C11",
+         "contract-based deductive verification (govc WP over go/ssa, z3/cvc5) + structural census of reflective writers",
+         "Completeness of the recursion as a closed form (every settable leaf at every depth is recorded exactly once) is proved per level "
+         "(per acceptor call) but not yet as one statement over the whole struct tree; termination of the recursion relies on Go's ban on "
+         "recursive by-value struct types (not an obligation). reflect itself is axiomatised (A-REFLECT); mapstructure decoding writes "
+         "through the fresh value handed to it (A-LIB, parameter contract of SetValue's setter); NewMeta is still a trusted contract at "
+         "its call sites. The scanner's write set is related to the abstract region of C20 only by assumption. " + TRUST),
  "C06": ("proof",
          "Candidate collection is verified per processor for an arbitrary property list and definition registry: for a nameless wire point of "
          "pointer type exactly the definitions whose value has that type are appended, for an interface type exactly the implementers "
